@@ -76,8 +76,7 @@ def nullability_through_annotated(repo: Repo, rep: Report, rule: str) -> None:
                 continue
             for n in _own_nodes(fi.node):
                 if isinstance(n, (ast.Assign, ast.AnnAssign)) and n.value is not None:
-                    tgt = n.targets[0] if isinstance(n, ast.Assign) else n.target
-                    if ast.unparse(tgt) != "could_be_none":
+                    if not isinstance(n.value, ast.BoolOp):
                         continue
                     for c in ast.walk(n.value):
                         if isinstance(c, ast.Call) and ast.unparse(c.func) == "is_optional" and c.args:
@@ -529,7 +528,7 @@ def nullability_sites_agree(repo: Repo, rep: Report, rule: str) -> None:
             if fi.module != mod:
                 continue
             for st in _own_nodes(fi.node):
-                if isinstance(st, ast.Assign) and ast.unparse(st.targets[0]) == "could_be_none" and isinstance(st.value, ast.BoolOp):
+                if isinstance(st, ast.Assign) and isinstance(st.value, ast.BoolOp) and isinstance(st.value.op, ast.Or) and "is_optional(" in ast.unparse(st.value):
                     sites[fi.qualname] = (fi, st, _disjunct_kinds(st.value))
     if len(sites) < 4:
         raise AnalysisError(f"only {len(sites)} could_be_none decisions found")
@@ -698,7 +697,8 @@ def plain_config_copied_whole(repo: Repo, rep: Report, rule: str) -> None:
     for c in hits:
         ns = c.args[2]
         inst = f"get_config: type('Config', ..., {ast.unparse(ns)[:70]})"
-        whole = isinstance(ns, ast.Dict) and any(k is None and ast.unparse(v) == "config_cls.__dict__" for k, v in zip(ns.keys, ns.values))
+        whole = isinstance(ns, ast.Dict) and any(k is None and isinstance(v, ast.Attribute) and v.attr == "__dict__" and ast.unparse(v.value) != "BaseConfig"
+                                                 for k, v in zip(ns.keys, ns.values))
         filtered = any(isinstance(x, (ast.DictComp, ast.GeneratorExp, ast.ListComp)) and any(g.ifs for g in x.generators) for x in ast.walk(ns))
         if whole and not filtered:
             rep.ok(rule, inst, None)
@@ -762,8 +762,10 @@ def speculative_variant_calls_guarded(repo: Repo, rep: Report, rule: str) -> Non
         for c in _own_nodes(fi.node):
             if not (isinstance(c, ast.Call) and ast.unparse(c.func) == "lines.append" and c.args and isinstance(c.args[0], ast.JoinedStr)):
                 continue
-            txt = ast.unparse(c.args[0])
-            if not (_strings(c.args[0]).startswith("return ") and "variant_method_call" in txt):
+            vals = c.args[0].values
+            # `return <receiver>.{call text}`: the f-string ends with a hole holding the call, right after a dot
+            if not (_strings(c.args[0]).startswith("return ") and len(vals) >= 2 and isinstance(vals[-1], ast.FormattedValue)
+                    and isinstance(vals[-1].value, ast.Name) and isinstance(vals[-2], ast.Constant) and str(vals[-2].value).endswith(".")):
                 continue
             # no-field context?
             p, nofield, tried = c, False, False
